@@ -305,3 +305,10 @@ pub fn sha_finalize_precomputed(_s: Sha256) -> [u8; 32] {
         model_digest(&G.rec, n)
     }
 }
+
+/// S7: `Vec::with_capacity(n)` -> `Vec::new()`. A capacity is a hint and does not change
+/// `Vec` semantics; the 162-byte pre-allocation of `Message::make_key` would put the key
+/// outside CBMC's field-sensitive range (every read symbolic, map shape path-dependent).
+pub fn with_capacity_none<T>(_n: usize) -> Vec<T> {
+    Vec::new()
+}
